@@ -84,7 +84,9 @@ def execute(schedule) -> Result:
                     continue
                 res.abstract.append(f"m{mi}|v{r['variant']}|{schedule['variants'][r['variant']]['containers']['state']}")
                 if not r["twice_equal"]:
-                    res.add("C15", "same_interpreter_twice", "C15:same_interpreter_twice", ei, "generating twice in one interpreter gives identical text and layout", f"model {mi} variant {r['variant']} hashseed {hs}")
+                    res.add("C15", "same_interpreter_twice", "C15:same_interpreter_twice", ei, "generating twice in one interpreter (the second time over stale, longer files at the output paths) gives identical text and layout", f"model {mi} variant {r['variant']} hashseed {hs}")
+                if not r.get("rerender_equal", True):
+                    res.add("C15", "render_twice", "C15:render_twice", ei, "rendering the same generator object a second time (header_from_ast / source_from_ast) gives the text that was written", f"model {mi} variant {r['variant']} hashseed {hs}")
                 if base is None:
                     base = (hs, r)
                     continue
